@@ -379,6 +379,9 @@ pub fn run(pc: &PropCtx) {
     pc.bound("enum_context_max", json!(3));
     let cases = pc.tier.pick(6_000, 120_000);
     pc.run_tape("random", cases, (64, 1200), gen_case, check);
+    if pc.tier == Tier::Thorough {
+        pc.run_fuzz("C03:random", 500_000, 5000, &|v| replay(pc, "random", v).unwrap_or(Verdict::Reject("unreadable")));
+    }
 }
 
 pub fn replay(pc: &PropCtx, sub: &str, case: &serde_json::Value) -> Result<Verdict, String> {
